@@ -374,6 +374,11 @@ func strEq(a, b Str) *Term {
 				return r
 			}
 		}
+		if b.Kind == 1 {
+			// mixed comparison with an opaque string: the encoded string's identity is an
+			// uninterpreted function of codec and payload
+			return Eq(encAtom(a), b.Atom)
+		}
 		panic(engErr("comparison of an encoded string (" + a.Codec + ") with a non-encoded string"))
 	}
 	if a.Kind == 1 || b.Kind == 1 {
@@ -670,4 +675,54 @@ func eqValSafe(a, b Value) (t *Term) {
 		}
 	}()
 	return eqVal(a, b)
+}
+
+func flattenPure(v Value, out *[]*Term) {
+	switch x := v.(type) {
+	case Sc:
+		*out = append(*out, x.T)
+	case BA:
+		if x.N > 0 {
+			*out = append(*out, WordOf(x.A, Idx(0), x.N))
+		}
+	case Str:
+		switch x.Kind {
+		case 0:
+			*out = append(*out, internStr(x.Conc))
+		case 1:
+			*out = append(*out, x.Atom)
+		case 2:
+			*out = append(*out, x.Len)
+			for i := 0; i < x.Max; i++ {
+				*out = append(*out, Ite(Ult(Idx(i), x.Len), Select(x.A, Idx(i)), BVu(0, 8)))
+			}
+		case 3:
+			*out = append(*out, encAtom(x))
+		}
+	case Tu:
+		*out = append(*out, Idx(len(x.E)))
+		for _, e := range x.E {
+			flattenPure(e, out)
+		}
+	case St:
+		for _, e := range x.F {
+			flattenPure(e, out)
+		}
+	case Ar:
+		for _, e := range x.E {
+			flattenPure(e, out)
+		}
+	default:
+		panic(engErr(fmt.Sprintf("cannot flatten %T inside an encoded string", v)))
+	}
+}
+
+func encAtom(a Str) *Term {
+	var ts []*Term
+	flattenPure(a.Payload, &ts)
+	sig := ""
+	for _, t := range ts {
+		sig += fmt.Sprintf(".%d", t.S.W)
+	}
+	return App("enc:"+a.Codec+sig, BVS(64), ts...)
 }
